@@ -63,22 +63,40 @@ def gen(rng, tier):
             yield Case(G.case('small', ivs, ops), bool(ivs), 'exhaustive')
 
 
+EMITS = {'find': 1, 'seek': 1, 'count': 1, 'cov': 1, 'len': 1, 'ivs': 1, 'depth': 1, 'ui': 1, 'isempty': 1, 'ivcmp': 1}
+
+
 def canon(case, out):
+    """hit lists as sorted multisets; (start,stop) only for dumps of the stored list; and once merge_overlaps has run,
+    the payload of a stored interval is unspecified (which of several merged intervals donates its value depends on the
+    order of equal keys), so values are dropped from every later hit list"""
     try:
         o = sx.parse(out)
+        c = sx.parse(case)
     except Exception:
         return out
     if not isinstance(o, list):
         return out
+    merged_at = None        # index (in the output list) from which values are unspecified
+    try:
+        k = 0
+        for op in c[3][1:]:
+            if op[0] == 'merge' and merged_at is None:
+                merged_at = k
+            k += EMITS.get(op[0], 0)
+    except Exception:
+        pass
     res = []
-    for x in o:
+    for j, x in enumerate(o[1:]):
+        drop = merged_at is not None and j >= merged_at
         if isinstance(x, list) and x and x[0] == 'h':
-            res.append(['h'] + sorted(x[1:], key=lambda t: [int(v) for v in t]))
+            items = [t[:2] for t in x[1:]] if drop else x[1:]
+            res.append(['h'] + sorted(items, key=lambda t: [int(v) for v in t]))
         elif isinstance(x, list) and x and x[0] == 'ivs':
             res.append(['ivs'] + [t[:2] for t in x[1:]])
         else:
             res.append(x)
-    return res
+    return [o[0]] + res
 
 
 def classify(case, impl, model):
